@@ -4,7 +4,7 @@ All three are evaluated on the `dbg` configuration, where each checked operation
 Assert(Overflow(..)) / Assert(RemainderByZero) terminator that marks the site.
 """
 from . import mir, guard
-from .mir import show, is_call, is_bin, walk
+from .mir import show, is_call, is_bin, walk, contains
 
 POS_CONST_NAMES = ("BIT_UNIT", "NIBBLE_UNIT", "BYTE_UNIT", "BITS")
 
@@ -257,91 +257,6 @@ def _discharge_nonzero(b, bb, div):
 # OVF: BitIterator
 # --------------------------------------------------------------------------------------------
 
-def ovf_iterator(crate):
-    """every overflow-checked + or * in BitIterator methods whose operand depends on a usize parameter of the
-    method must be bounded by a dominating guard (else: panic in dbg, wrap in rel)"""
-    res = []
-    for b in crate.bodies:
-        if not (b.self_ty or "").startswith("BitIterator"):
-            continue
-        params = {("param", b.local_name(l)) for l in range(2, b.arg_count + 1)}
-        sites = 0
-        for bb, t in b.iter_asserts():
-            k = t["kind"]
-            if k not in ("Overflow(Add)", "Overflow(Mul)"):
-                continue
-            x, y = (b.e_operand(o) for o in t["ops"])
-            dep = [p for p in params if mir.contains(x, lambda z: z == p) or mir.contains(y, lambda z: z == p)]
-            key = "%s|%s %s %s" % (b.key, show(x, False), "+" if "Add" in k else "*", show(y, False))
-            if not dep:
-                # start += 1 etc: bounded by start < end
-                rels = _relations_at(b, bb)
-                ok = any(op == "Lt" and l == x for op, l, r in rels) or y == ("int", 1) and any(
-                    op == "Lt" and l == x for op, l, r in rels)
-                res.append((b, key, "pass" if ok else "undecided",
-                            "operand does not depend on a caller-supplied count" + ("; bounded by a dominating `<`" if ok else "")))
-                continue
-            sites += 1
-            rels = _relations_at(b, bb)
-            n = dep[0]
-            ok = None
-            for op, l, r in rels:
-                # n < end - start  |- start + n (< end) and n + 1 (<= end - start)
-                if op == "Lt" and l == n and is_bin(r, "Sub"):
-                    end, start = r[2], r[3]
-                    if (x == start and y == n) or (x == n and y == start):
-                        ok = "guarded by %s < %s - %s, so %s + %s < %s" % (show(n), show(end), show(start), show(x), show(y), show(end))
-                    if x == n and y == ("int", 1):
-                        ok = "guarded by %s < %s, so n + 1 does not overflow" % (show(n), show(r))
-                    # start += n + 1
-                    if (x == start and is_bin(y, "Add") and y[2] == n and y[3] == ("int", 1)):
-                        ok = "guarded by %s < %s - %s, so %s + (n + 1) <= %s" % (show(n), show(end), show(start), show(start), show(end))
-            if ok:
-                res.append((b, key, "pass", ok))
-            else:
-                res.append((b, key, "violation",
-                            "overflow-checked `%s %s %s` on the caller-supplied count `%s` without a dominating bound: "
-                            "panics with overflow checks, wraps (wrong element) without"
-                            % (show(x, False), "+" if "Add" in k else "*", show(y, False), n[1])))
-    return res
-
-
-def iterator_invariant(crate):
-    """every store to range.start / range.end keeps start <= end: start += 1 under start < end, end -= 1 under
-    start < end, start := end, end := start, start += n+1 / end -= n+1 under n < end - start"""
-    res = []
-    for b in crate.bodies:
-        if not (b.self_ty or "").startswith("BitIterator"):
-            continue
-        rng = ("field", ("param", "self"), "range")
-        start, end = ("field", rng, "start"), ("field", rng, "end")
-        for bb, i, st in b.iter_stmts():
-            if st["s"] != "assign" or not st["p"]["pr"]:
-                continue
-            pe = b.e_place(st["p"])
-            if pe not in (start, end):
-                continue
-            v = b.e_rvalue(st["r"])
-            key = "%s|%s := %s" % (b.key, show(pe), show(v))
-            rels = _relations_at(b, bb)
-            lt = any(op == "Lt" and l == start and r == end for op, l, r in rels)
-            nlt = [l for op, l, r in rels if op == "Lt" and r == ("bin", "Sub", end, start)]
-            ok = None
-            if pe == start and v == end or pe == end and v == start:
-                ok = "exhausts: start == end"
-            elif pe == start and v == ("bin", "Add", start, ("int", 1)) and lt:
-                ok = "start += 1 under start < end"
-            elif pe == end and v == ("bin", "Sub", end, ("int", 1)) and lt:
-                ok = "end -= 1 under start < end"
-            elif pe == start and is_bin(v, "Add") and v[2] == start and nlt and v[3] == ("bin", "Add", nlt[0], ("int", 1)):
-                ok = "start += n + 1 under n < end - start"
-            elif pe == end and is_bin(v, "Sub") and v[2] == end and nlt and v[3] == ("bin", "Add", nlt[0], ("int", 1)):
-                ok = "end -= n + 1 under n < end - start"
-            res.append((b, key, "pass" if ok else "violation",
-                        ok or "store `%s := %s` is not one of the recognised invariant-preserving updates" % (show(pe), show(v))))
-    return res
-
-
 # --------------------------------------------------------------------------------------------
 # NARROW
 # --------------------------------------------------------------------------------------------
@@ -384,3 +299,103 @@ def narrowing(crate):
         if not found:
             res.append((b, "%s|forwarder" % b.key, "n/a", "no narrowing here (forwards the amount unchanged)"))
     return res
+
+
+# ---------------------------------------------------------------------------------------------
+# NOPANIC: bounds checks and explicit panics in functions that must never panic (C11: vector -> integer)
+# ---------------------------------------------------------------------------------------------
+
+def _strip_iter_adapters(e):
+    while isinstance(e, tuple) and e[0] == "call" and e[1] in ("rev", "into_iter", "skip", "take", "step_by") and e[3]:
+        e = e[3][0]
+    return e
+
+
+def _storage_owner(arr):
+    """`len(X.data)` / `len(deref(X.data))` / N -> ('data', X) | ('array', None) | None"""
+    if arr == ("cparam", "N"):
+        return ("array", None)
+    if is_call(arr, "len") and arr[3]:
+        arr = arr[3][0]
+    for x in walk(arr):
+        if isinstance(x, tuple) and x and x[0] == "field" and x[2] == "data":
+            return ("data", x[1])
+    return None
+
+
+def _upper_ok(hi, owner):
+    """loop bound `hi` never exceeds the number of storage words of `owner`"""
+    kind, X = owner
+    if kind == "array" and hi == ("cparam", "N"):
+        return "index ranges over 0..N"
+    if is_call(hi, "capacity_from_bit_len") and hi[3]:
+        a = hi[3][0]
+        if X is not None and (a == ("field", X, "length") or (is_call(a, "len") and a[3] == (X,))):
+            return "index < capacity_from_bit_len(%s.length) <= allocated words (len <= capacity, C18)" % show(X)
+        if kind == "array" and (a == ("field", ("param", "self"), "length") or is_call(a, "len")):
+            return "index < capacity_from_bit_len(len) <= N (len <= capacity, C19)"
+    if X is not None and (is_call(hi, "len") or (hi[0] == "un" and hi[1] == "PtrMetadata")) \
+            and contains(hi, lambda x: x == ("field", X, "data")):
+        return "index < %s.data.len()" % show(X)
+    if is_call(hi, "min") and len(hi[3]) == 2:
+        for a in hi[3]:
+            r = _upper_ok(a, owner)
+            if r:
+                return r
+    return None
+
+
+def nopanic_sites(crate, want):
+    """for every body selected by `want`: each bounds check must be discharged by a loop bound / dominating guard that
+    keeps the index inside the storage, and there is no explicit panic. Unwraps are the UNWRAP family's business."""
+    out = []
+    for b in crate.bodies:
+        if not want(b):
+            continue
+        n = 0
+        for bb, t in b.iter_asserts():
+            if t.get("kind") != "BoundsCheck":
+                continue
+            n += 1
+            ln, idx = (b.e_operand(o) for o in t["ops"])
+            key = "%s|index %s" % (b.key, show(idx, False))
+            owner = _storage_owner(ln)
+            why = None
+            if owner and idx[0] == "iv":
+                src = _strip_iter_adapters(b.iter_source(idx[1]))
+                if src[0] == "agg" and "Range" in str(src[1]) and len(src[3]) == 2:
+                    why = _upper_ok(src[3][1], owner)
+                elif src[0] == "range" and len(src) >= 3:
+                    why = _upper_ok(src[2], owner)
+            rels = _relations_at(b, bb)
+            if why is None:
+                for op, l, r in rels:
+                    if op == "Lt" and l == idx and (r == ln or (owner and _upper_ok(r, owner))):
+                        why = "guarded by %s < %s" % (show(l), show(r))
+            if why is None and owner and owner[0] == "data" and idx == ("int", 0):
+                X = owner[1]
+                for op, l, r in rels:
+                    def is_storage_len(e):
+                        return (is_call(e, "len") or (e[0] == "un" and e[1] == "PtrMetadata")) and contains(e, lambda x: x == ("field", X, "data"))
+                    lower = (op in ("Gt", "Ge", "Ne") and is_storage_len(l)) or (op in ("Lt", "Le") and is_storage_len(r))
+                    if lower and not (op in ("Ge", "Le") and ("int", 0) in (l, r)):
+                        why = "guarded by %s %s %s" % (show(l), mir.SYM[op], show(r))
+            if why:
+                out.append((b, key, "pass", "bounds check discharged: " + why))
+            else:
+                out.append((b, key, "violation",
+                            "index %s into %s can be out of bounds (e.g. an empty vector owns no storage word): this function "
+                            "must never panic and nothing bounds the index (loop bound / dominating guard on the storage length)"
+                            % (show(idx), show(ln))))
+        for bb in b.panic_blocks():
+            t = b.term(bb)
+            fn = t["f"].get("fn") if t["f"]["k"] == "const" else None
+            name = fn["name"] if fn else "<indirect>"
+            if name in ("unwrap_failed", "expect_failed"):
+                continue
+            n += 1
+            out.append((b, "%s|explicit %s" % (b.key, name), "violation",
+                        "a diverging call (%s) is reachable in a function that must never panic" % name))
+        if n == 0:
+            out.append((b, "%s|no panic site" % b.key, "pass", "no bounds check and no diverging call in the body"))
+    return out
